@@ -94,6 +94,20 @@ def extract_quadratic():
 
 
 def extract_loop():
+    try:
+        return extract_loop_pinned()
+    except Unsupported:
+        # the body of loop_refinement is no longer pinned textually when T12p (gen_kernels_refine.py) translates it statement
+        # by statement: the flag operator and the form of the interval-end test are then read from its tree, so that a harmless
+        # rewrite passes; what the body MEANS is decided by Properties/C06KernelsLoop.lean (loopRefinementPx_eq)
+        from . import gen_kernels_refine
+        k = gen_kernels_refine.kernels()["loopRefinementPx"]
+        if len(k.flag_ops) != 1 or k.guard_kind not in ("index", "value"):
+            raise
+        return k.flag_ops == {"or"}, k.guard_kind == "index"
+
+
+def extract_loop_pinned():
     fn = find_method(find_class(parse(SRC[2]), "AbstractRefinement"), "loop_refinement")
     ops = set()
     for st in walk_stmts(fn):
